@@ -220,6 +220,9 @@ def planted(res):
     ex.append((X.math("<munderover><mrow><mn>%s</mn><mo>+</mo><mn>%s</mn></mrow><mn>%s</mn><mn>%s</mn></munderover>" % (a, b, c, d)), [a, b, c, d]))
     ex.append((X.math("<mrow><msup><mn>%s</mn><mn>%s</mn></msup><mo>+</mo><msub><mi>x</mi><mn>%s</mn></msub><mo>+</mo><mroot><mi>y</mi><mn>%s</mn></mroot></mrow>" % (a, b, c, d)), [a, b, c, d]))
     ex.append((X.math("<mrow><munderover><mo>&#x2211;</mo><mrow><mi>i</mi><mo>=</mo><mn>%s</mn></mrow><mn>%s</mn></munderover><mfrac><mn>%s</mn><mn>%s</mn></mfrac></mrow>" % (a, b, c, d)), [a, b, c, d]))
+    ex.append((X.math("<mrow><mn>%s</mn><mo>/</mo><mn>%s</mn><mo>/</mo><mn>%s</mn><mo>+</mo><mn>%s</mn></mrow>" % ("41", "52", "35", d)), ["41", "52", "35", d]))
+    ex.append((X.math("<mrow><mn>%s</mn><mo>:</mo><mn>%s</mn><mo>:</mo><mn>%s</mn><mo>&#xF7;</mo><mn>%s</mn></mrow>" % ("41", "52", "35", d)), ["41", "52", "35", d]))
+    ex.append((X.math("<mrow><mn>%s</mn><mfrac><mn>%s</mn><mn>%s</mn></mfrac><mo>-</mo><mfrac><mn>%s</mn><mn>10</mn></mfrac></mrow>" % ("41", "52", "35", d)), ["41", "52", "35", d]))
     ex.append((X.math("<mrow><mo>(</mo><mtable><mtr><mtd><mn>%s</mn></mtd><mtd><mn>%s</mn></mtd></mtr><mtr><mtd><mn>%s</mn></mtd><mtd><mn>%s</mn></mtd></mtr></mtable><mo>)</mo></mrow>" % (a, b, c, d)), [a, b, c, d]))
     ex.append((X.math("<mrow><mi>f</mi><mo>&#x2061;</mo><mrow><mo>(</mo><mn>%s</mn><mo>,</mo><mn>%s</mn><mo>)</mo></mrow><mo>=</mo><mfrac><mn>%s</mn><mn>%s</mn></mfrac></mrow>" % (a, b, c, d)), [a, b, c, d]))
     return ex
